@@ -1,9 +1,10 @@
 """C12 — XLS strings decode identically however records are split and characters packed.
 
 Structured cases: a random string table and a random legal layout go to the extracted Coq writer
-(vm c12_sstenc), which answers legality, the known class, the specification's text, the model's
-outcome and the SST / CONTINUE bodies; the bodies then go through the real parse_sst (vh c12_sst).
-  impl vs model  — the tie;   impl vs spec outside the known class — search for a violation.
+(vm c12_sstenc), which answers legality, the known class ("-": none is left since the repair of
+CutInsidePair), the specification's text, the model's outcome and the SST / CONTINUE bodies; the
+bodies then go through the real parse_sst (vh c12_sst).
+  impl vs model  — the tie;   impl vs spec on every legal layout — search for a violation.
 Raw cases: mutated encodings (truncated fragments, wrong counts/lengths/flags, empty CONTINUEs),
 compared on outcome class including panic and alloc.  Single-string records (LABEL, STRING,
 BoundSheet8, LABELSST) and RecordIter framing likewise.  End to end: generated .xls files whose SST
@@ -17,7 +18,6 @@ ASSUMPTIONS = [
     "SST count below 2^31 and cch below 2^16 as the record fields impose; a string's formatting runs and ExtRst are opaque bytes",
     "a STRING/LABEL value longer than one record (CONTINUE after a non-SST record) is outside the statement and the model",
 ]
-KNOWN_PAIR = "CutInsidePair"
 
 # ---------------------------------------------------------------- text generation
 def utf16_spec(units):
@@ -585,10 +585,15 @@ CORPUS_RAW = [
     ("0100000001000000020001fffe6100", "-", "ok:1:efbbbf61"),          # U+FEFF first (fixed by 98c2838)
     ("0100000001000000020001feff6100", "-", "ok:1:efbfbe61"),          # U+FFFE first
     ("0100000001000000040001efbbbf00e4b8ad00", "-", "ok:1:ebafafc2bfeba3a4c2ad"),   # EF BB BF first
-    ("01000000010000000200013dd8", "0100de", "ok:1:efbfbdefbfbd"),     # F24 witness, raw form
-    ("01000000ffffffff", "-", "panic"),                                # negative count: unwrap
-    ("01000000ffffff7f", "-", "alloc"),                                # with_capacity(2^31-1)
-    ("0100000001000000020001", "", "panic"),                           # empty CONTINUE where the flag byte is read
+    ("01000000010000000200013dd8", "0100de", "ok:1:f09f9880"),         # F24 witness, raw form (repaired: one decoder per string)
+    ("010000000100000004000161003dd8", "0100de6200", "ok:1:61f09f988062"),   # F24 witness of the notes
+    ("010000000100000003000161003dd8", "006200", "ok:1:61efbfbd62"),   # dangling lead surrogate, then an 8-bit segment
+    ("01000000010000000200013dd8", "01,0100de", "ok:1:f09f9880"),      # a flag-only CONTINUE between the halves of a pair
+    ("01000000ffffffff", "-", "err"),                                  # negative count (was: unwrap panic)
+    ("01000000ffffff7f", "-", "err"),                                  # count 2^31-1 (was: with_capacity(2^31-1))
+    ("0100000001000000020001", "", "err"),                             # empty CONTINUE where the flag byte is read (was: index panic)
+    ("0100000001000000020009", "", "err"),                             # fRichSt with no byte left for cRun (was: slice panic)
+    ("010000000100000002000500", "", "err"),                           # fExtSt with 1 byte left for cbExtRst (was: slice panic)
     ("01000000", "-", "err"),
     ("0100000002000000010000", "-", "err"),                            # count larger than the strings present
 ]
@@ -602,7 +607,7 @@ def run_corpus(ctx):
         if impl.get(cid) != model.get(cid):
             ctx.disagreements.append({"function": "parse_sst(corpus)", "case": lines[i],
                                       "impl": impl.get(cid), "model": model.get(cid)})
-        elif impl.get(cid) != c[2] and i < 3:
+        elif impl.get(cid) != c[2]:
             ctx.violations.append({"case": lines[i], "expected": c[2], "actual": impl.get(cid),
                                    "model": model.get(cid), "what": "corpus witness no longer reads back"})
         ctx.nontrivial(lines[i])
@@ -620,7 +625,7 @@ def run_corpus(ctx):
         elif impl.get(cid) != want[cid]:
             ctx.violations.append({"case": l, "expected": want[cid], "actual": impl.get(cid),
                                    "model": model.get(cid), "what": "empty XLUnicodeString no longer reads as the empty text"})
-    # the Coq witness of CutInsidePair as a structured case
+    # the Coq witness of the former class CutInsidePair as a structured case
     wit = ([[0x61, 0xD83D, 0xDE00, 0x62]], [(0, 1, [(2, 1)], None, None, [])], ["astral"], 1)
     run_sst_cases(ctx, [wit], "w", mutate=False)
 
